@@ -166,9 +166,15 @@ func (o *oracleState) c04(st *seqStep) {
 		} else {
 			created[f] = true
 			if succ {
-				uid := -2
-				if vf, ok := st.after.Fids[f]; ok {
-					uid = vf.Uid
+				// the user the request names: n_uname as the connection's dialect decodes it (a plain
+				// 9P2000 Tattach carries none: Go's zero value); the harness's user pool knows every uid
+				un := u32(st.msg[len(st.msg)-1])
+				if !st.before.Dotu && t == "Tattach" {
+					un = 0
+				}
+				uid := int(un)
+				if vf, ok := st.after.Fids[f]; ok && vf.Uid != uid {
+					o.fail("user-binding", st, fmt.Sprintf("%s bound fid %d to user %d, the request names user %d", t, f, vf.Uid, uid))
 				}
 				o.valid[f] = uid
 			}
